@@ -240,6 +240,16 @@ def run(tier: str, rng: random.Random, proof_ok: bool) -> dict:
          [("VDict", [P(G.S("a"), G.S(" x "))]), ("VDict", [])]),
         (("MaybeV", ("CacheV", INT)), [("VJust", G.I(1)), ("VJust", G.S("s")), G.NOTHING]),
         (("ListV", ("OptionalV", ("NoneV", None), ("CacheV", STRIP)), [], [], None), [("VList", [G.S(" a "), G.NONE, G.S(" a ")])]),
+        # every kind that takes both sync and async predicates, configured with both (the two lists stay two lists,
+        # of the length they were given, whatever the number of calls)
+        (("SetV", INT, [("PMinItems", 1)], [("APred", N(0)), ("APred", N(1))], None), [("VSet", [G.I(1)]), ("VSet", []), ("VSet", [G.I(-1), G.I(2)])]),
+        (("ListV", INT, [("PMinItems", 1)], [("APred", N(0)), ("APred", N(1))], None), [("VList", [G.I(1)]), ("VList", []), ("VList", [G.I(-1), G.I(2)])]),
+        (("UTupleV", INT, [("PMinItems", 1)], [("APred", N(0)), ("APred", N(1))], Some(("CoTupleOrList",))),
+         [("VTuple", [G.I(1)]), ("VList", []), ("VTuple", [G.I(-1), G.I(2)])]),
+        (("MapV", INT, INT, [("PMinKeys", 1)], [("APred", N(0)), ("APred", N(1))], None),
+         [("VDict", [P(G.I(1), G.I(1))]), ("VDict", []), ("VDict", [P(G.I(-1), G.I(2)), P(G.I(3), G.I(3))])]),
+        (("Scalar", ("KInt",), None, [], [("PMin", G.I(0), False)], [("APred", N(0)), ("APred", N(1)), ("APred", N(2))]), [G.I(1), G.I(-1), G.I(7)]),
+        (("Scalar", ("KStr",), None, [("Strip",)], [("PNotBlank",)], [("APred", N(0)), ("APred", N(1))]), [G.S(" a "), G.S("  "), G.S("abc")]),
     ]
     # (a) histories on one shared instance
     import itertools
